@@ -60,6 +60,7 @@ class CallMixin:
         """A fresh list enumerating the (finite) set in an ARBITRARY order:
         distinct, and exactly the members.  This is the model of python set
         iteration order (C16: nothing may depend on it)."""
+        s = self.named(st, s)
         es = s.sort.elem
         perm = fresh(ListSort(es), "perm")
         n, arr = perm.t
@@ -219,10 +220,23 @@ class CallMixin:
                   z3.And(0 <= idx(x), idx(x) < klen, z3.Select(karr, idx(x)) == x)),
                   patterns=[z3.Select(has, x)]))
 
+    def named(self, st, v: Val) -> Val:
+        """Give every non-trivial component term a name (patterns cannot contain ite/lambda)."""
+        comps = []
+        for t in v.t:
+            if z3.is_const(t) or z3.is_int_value(t):
+                comps.append(t)
+            else:
+                c = z3.Const(fresh_name("nm"), t.sort())
+                st.assume(c == t)
+                comps.append(c)
+        return Val(v.sort, tuple(comps))
+
     def append_list(self, st, a: Val, x: Val) -> Val:
         """a + [x] as a fresh list with trigger-friendly two-directional axioms."""
         if z3.is_int_value(z3.simplify(a.t[0])):
             return list_append(a, x)          # concrete length: plain stores
+        a = self.named(st, a)
         r = fresh(a.sort, "app")
         n = a.t[0]
         i = z3.Int(fresh_name("ai"))
@@ -235,6 +249,7 @@ class CallMixin:
 
     def concat_lists(self, st, a: Val, b: Val) -> Val:
         """a ++ b as a fresh list with two-directional, trigger-friendly axioms."""
+        a, b = self.named(st, a), self.named(st, b)
         r = fresh(a.sort, "cat")
         n1, n2 = a.t[0], b.t[0]
         i = z3.Int(fresh_name("ki"))
@@ -630,6 +645,7 @@ class CallMixin:
 
     def sorted_list(self, node, st, v: Val, key, reverse: bool) -> Val:
         """Library contract of sorted()/list.sort(): a stable permutation ordered by key."""
+        v = self.named(st, v)
         n = v.t[0]
         res = fresh(v.sort, "sorted")
         p = z3.Function(fresh_name("perm"), z3.IntSort(), z3.IntSort())
@@ -802,6 +818,8 @@ class CallMixin:
                     has = dict_has(recv, k)
                 v = dict_get(recv, k)
                 d = args[1] if len(args) > 1 else VNONE
+                if isinstance(d, PyTuple) and not d.items:
+                    d = self.coerce(d, v.sort, node)
                 if isinstance(d.sort, NoneSort):
                     if isinstance(v.sort, RefSort):
                         d = mk(v.sort, v.sort.null)
